@@ -136,7 +136,18 @@ class ContMixin:
         cur = self.c_term(c, st)
         n = t.acc('len')(cur)
         st.assume(n >= 0)
-        self.write_cont(c, st, t.mk(n + 1, z3.Store(t.acc('arr')(cur), n, self.term(v, st, t.args[0]))), node)
+        arr = t.acc('arr')(cur)
+        if self.ctx.named_appends and not st.spec:
+            # a named array with a frame axiom triggered from BOTH sides, so that ground terms over the old
+            # list instantiate facts over the new one (E-matching does not look through store terms)
+            new = fresh('app', arr.sort())
+            i = z3.Int('i!ap')
+            st.assume(z3.Select(new, n) == self.term(v, st, t.args[0]))
+            st.assume(z3.ForAll([i], z3.Implies(i != n, z3.Select(new, i) == z3.Select(arr, i)),
+                                patterns=[z3.Select(new, i), z3.Select(arr, i)]))
+            self.write_cont(c, st, t.mk(n + 1, new), node)
+            return
+        self.write_cont(c, st, t.mk(n + 1, z3.Store(arr, n, self.term(v, st, t.args[0]))), node)
 
     def l_slice_term(self, c, lo, hi, st):
         """fresh list term equal to c[lo:hi] (lo/hi z3 ints already clamped into [0,len])."""
